@@ -22,6 +22,7 @@ import (
 	"pgregory.net/rapid"
 
 	"verifharness/hx"
+	"verifharness/wire"
 )
 
 // "idle connections per host" observed from the upstreams' side: with
@@ -39,8 +40,6 @@ func TestC19IdleConnsPerHost(t *testing.T) {
 	var ups []*upstream
 	for i := 0; i < maxHosts; i++ {
 		u := &upstream{}
-		var mu sync.Mutex
-		_ = mu
 		u.srv = httptest.NewUnstartedServer(http.HandlerFunc(func(w http.ResponseWriter, r *http.Request) {
 			u.arrived <- struct{}{}
 			<-u.release
@@ -75,6 +74,7 @@ func TestC19IdleConnsPerHost(t *testing.T) {
 		}
 		cache := route.NewGlobCache(10)
 		p := &proxy.HTTPProxy{
+			Stats:             wire.Stats(),
 			Transport:         transport.NewTransport(nil),
 			InsecureTransport: transport.NewTransport(&tls.Config{InsecureSkipVerify: true}),
 			Lookup: func(r *http.Request) *route.Target {
